@@ -1,0 +1,11 @@
+//go:build verif
+
+package common
+
+import "github.com/MixinNetwork/mixin/crypto"
+
+// VerifValidateOutputs exposes validateOutputs (in-transaction duplicate key filter, output
+// shape checks, amount balance, durable ghost key lock) for property C04.
+func (tx *Transaction) VerifValidateOutputs(store GhostLocker, hash crypto.Hash, inputAmount Integer, fork bool) error {
+	return tx.validateOutputs(store, hash, inputAmount, fork)
+}
